@@ -250,6 +250,7 @@ def run_check(mod, tier, seed, replay=None):
         "harness_error_count": n_harness,
         "harness_errors": agg["harness"][:5],
         "max_residuals": agg.get("max_resid", {}),
+        "unknown_violation_identities": [dict(clause=v.clause, **core.jsonable(v.identity)) for v in unknown][:400],
         "known_findings_seen": {findings[i]["what"][:80]: c for i, c in known.items()},
         "exhaustive": bool(cfg.get("exhaustive", False)) and h >= n_hist and not agg["harness"],
     }
